@@ -2,7 +2,9 @@
     Only statements; every proof is [exact] of a lemma in Proofs/. The functions named
     r1_* / s1_* are the Gallina translations regenerated from /repo on every run. *)
 From Coq Require Import Reals Floats Bool.
-From Geo Require Import Base.GoPrim Base.F64 Gen.R1 Proofs.C19_R1.
+From Geo Require Import Base.GoPrim Base.F64 Gen.R1 Gen.S1 Proofs.C19_R1.
+From Geo Require Import Gen.R2 Gen.S2Rect Gen.S2Cap Proofs.C19_R2 Proofs.C19_S2Rect Proofs.C19_Expanded Proofs.C19_Cap Proofs.C19_S1_Expanded Proofs.C19_S2Rect_Expanded.
+From Geo Require Import Proofs.C19_S1 Proofs.C19_S1_Union Proofs.C19_S1_Inter Proofs.C19_S1_Rel Proofs.C19_S1_Ops.
 Local Open Scope R_scope.
 
 (** r1.Interval ------------------------------------------------------------ *)
@@ -57,3 +59,417 @@ Theorem r1_empty_iff_no_member : forall i, wf1 i ->
   (r1_Interval_IsEmpty i = true <-> forall p, nonnan p -> ~ mem1 i p).
 Proof. exact isempty_spec. Qed.
 Print Assumptions r1_empty_iff_no_member.
+
+(** s1.Interval ------------------------------------------------------------
+    Points of the circle are reals x with -pi <= x <= pi ([inrange], pi being the float
+    constant math.Pi), -pi and pi denoting the same point; [mem_s1 i x] is membership of
+    the point in the interval (defined in Proofs/C19_S1.v without reference to the code);
+    [valid_s1] is the specification-side validity, equal to the code's IsValid. All
+    operands range over every valid representation: normal, inverted, empty, full,
+    singleton, endpoints at +-pi. *)
+Theorem s1_isvalid_is_validity : forall i, s1_Interval_IsValid i = true <-> valid_s1 i.
+Proof. exact valid_iff. Qed.
+Print Assumptions s1_isvalid_is_validity.
+
+Theorem s1_contains_is_membership : forall i p, valid_s1 i -> vpt p ->
+  (s1_Interval_Contains i p = true <-> mem_s1f i p).
+Proof. exact s1_contains_mem. Qed.
+Print Assumptions s1_contains_is_membership.
+
+Theorem s1_empty_iff_no_member : forall i, valid_s1 i ->
+  (s1_Interval_IsEmpty i = true <-> forall x, inrange x -> ~ mem_s1 i x).
+Proof. exact s1_isempty_spec. Qed.
+Print Assumptions s1_empty_iff_no_member.
+
+Theorem s1_full_iff_every_member : forall i, valid_s1 i ->
+  (s1_Interval_IsFull i = true <-> forall x, inrange x -> mem_s1 i x).
+Proof. exact s1_isfull_spec. Qed.
+Print Assumptions s1_full_iff_every_member.
+
+Theorem s1_union_contains_both : forall a b x, valid_s1 a -> valid_s1 b -> inrange x ->
+  mem_s1 a x \/ mem_s1 b x -> mem_s1 (s1_Interval_Union a b) x.
+Proof. exact s1_union_sound. Qed.
+Print Assumptions s1_union_contains_both.
+
+Theorem s1_intersection_contains_common : forall a b x, valid_s1 a -> valid_s1 b -> inrange x ->
+  mem_s1 a x -> mem_s1 b x -> mem_s1 (s1_Interval_Intersection a b) x.
+Proof. exact s1_intersection_complete. Qed.
+Print Assumptions s1_intersection_contains_common.
+
+Theorem s1_intersection_nothing_outside_both : forall a b x, valid_s1 a -> valid_s1 b -> inrange x ->
+  mem_s1 (s1_Interval_Intersection a b) x -> mem_s1 a x \/ mem_s1 b x.
+Proof. exact s1_intersection_within. Qed.
+Print Assumptions s1_intersection_nothing_outside_both.
+
+Theorem s1_intersection_exact_when_connected : forall a b x, valid_s1 a -> valid_s1 b -> inrange x ->
+  ~ (mem_s1f a (s1_Interval_Lo b) /\ mem_s1f a (s1_Interval_Hi b)) ->
+  (mem_s1 (s1_Interval_Intersection a b) x <-> mem_s1 a x /\ mem_s1 b x).
+Proof. exact s1_intersection_exact_unless_two_arcs. Qed.
+Print Assumptions s1_intersection_exact_when_connected.
+
+(** "exactly the common points" is false of s1 (by design: two arcs are not an interval) *)
+Theorem s1_intersection_exactness_refuted : exists a b p,
+  s1_Interval_IsValid a = true /\ s1_Interval_IsValid b = true /\
+  s1_Interval_Contains (s1_Interval_Intersection a b) p = true /\
+  s1_Interval_Contains b p = false.
+Proof. exact s1_intersection_not_exact. Qed.
+Print Assumptions s1_intersection_exactness_refuted.
+
+Theorem s1_contains_interval_iff_subset : forall a b, valid_s1 a -> valid_s1 b ->
+  (s1_Interval_ContainsInterval a b = true <-> forall x, inrange x -> mem_s1 b x -> mem_s1 a x).
+Proof. exact s1_contains_interval_spec. Qed.
+Print Assumptions s1_contains_interval_iff_subset.
+
+Theorem s1_intersects_iff_common_point : forall a b, valid_s1 a -> valid_s1 b ->
+  (s1_Interval_Intersects a b = true <-> exists x, inrange x /\ (mem_s1 a x /\ mem_s1 b x)).
+Proof. exact s1_intersects_spec. Qed.
+Print Assumptions s1_intersects_iff_common_point.
+
+Theorem s1_addpoint_keeps_everything : forall i p x, valid_s1 i -> vpt p -> inrange x ->
+  mem_s1 i x \/ normR x = normR (rank p) -> mem_s1 (s1_Interval_AddPoint i p) x.
+Proof. exact s1_addpoint_sound. Qed.
+Print Assumptions s1_addpoint_keeps_everything.
+
+Theorem s1_project_lands_inside : forall i p, valid_s1 i -> vpt p -> s1_Interval_IsEmpty i = false ->
+  vpt (s1_Interval_Project i p) /\ mem_s1f i (s1_Interval_Project i p).
+Proof. exact s1_project_inside. Qed.
+Print Assumptions s1_project_lands_inside.
+
+Theorem s1_complement_covers_everything : forall i x, valid_s1 i -> inrange x ->
+  mem_s1 i x \/ mem_s1 (s1_Interval_Complement i) x.
+Proof. exact s1_complement_covers. Qed.
+Print Assumptions s1_complement_covers_everything.
+
+Theorem s1_complement_shares_only_endpoints : forall i x, valid_s1 i -> inrange x ->
+  mem_s1 i x -> mem_s1 (s1_Interval_Complement i) x ->
+  normR x = normR (rank (s1_Interval_Lo i)) \/ normR x = normR (rank (s1_Interval_Hi i)).
+Proof. exact s1_complement_overlap_only_endpoints. Qed.
+Print Assumptions s1_complement_shares_only_endpoints.
+
+Theorem s1_point_pair_contains_both : forall p q, vpt p -> vpt q ->
+  mem_s1f (s1_IntervalFromPointPair p q) p /\ mem_s1f (s1_IntervalFromPointPair p q) q.
+Proof. exact s1_from_point_pair_contains. Qed.
+Print Assumptions s1_point_pair_contains_both.
+
+Theorem s1_results_valid : forall a b p q, valid_s1 a -> valid_s1 b -> vpt p -> vpt q ->
+  valid_s1 (s1_Interval_Union a b) /\ valid_s1 (s1_Interval_Intersection a b) /\
+  valid_s1 (s1_Interval_AddPoint a p) /\ valid_s1 (s1_Interval_Complement a) /\
+  valid_s1 (s1_IntervalFromPointPair p q) /\ valid_s1 (s1_IntervalFromEndpoints p q) /\
+  valid_s1 s1_EmptyInterval /\ valid_s1 s1_FullInterval.
+Proof.
+  intros a b p q Ha Hb Hp Hq.
+  exact (conj (s1_union_valid a b Ha Hb) (conj (s1_intersection_valid a b Ha Hb)
+        (conj (s1_addpoint_valid a p Ha (proj1 Hp)) (conj (s1_complement_valid a Ha)
+        (conj (s1_from_point_pair_valid p q Hp Hq) (conj (s1_from_endpoints_valid p q Hp Hq)
+        (conj s1_empty_valid s1_full_valid))))))).
+Qed.
+Print Assumptions s1_results_valid.
+
+(** r2.Rect ----------------------------------------------------------------
+    points are pairs of non-NaN floats; [mem_r2 r px py] is component-wise r1 membership;
+    [valid_r2] is non-NaN endpoints plus the code's IsValid (X empty iff Y empty). *)
+Theorem r2_contains_point_is_membership : forall r p, wf_r2 r ->
+  nonnan (r2_Point_X p) -> nonnan (r2_Point_Y p) ->
+  (r2_Rect_ContainsPoint r p = true <-> mem_r2 r (r2_Point_X p) (r2_Point_Y p)).
+Proof. exact r2_contains_point_mem. Qed.
+Print Assumptions r2_contains_point_is_membership.
+
+Theorem r2_union_contains_both : forall a b px py, wf_r2 a -> wf_r2 b -> nonnan px -> nonnan py ->
+  mem_r2 a px py \/ mem_r2 b px py -> mem_r2 (r2_Rect_Union a b) px py.
+Proof. exact r2_union_sound. Qed.
+Print Assumptions r2_union_contains_both.
+
+Theorem r2_intersection_exact : forall a b px py, wf_r2 a -> wf_r2 b -> nonnan px -> nonnan py ->
+  (mem_r2 (r2_Rect_Intersection a b) px py <-> mem_r2 a px py /\ mem_r2 b px py).
+Proof. exact C19_R2.r2_intersection_exact. Qed.
+Print Assumptions r2_intersection_exact.
+
+Theorem r2_contains_iff_subset : forall a b, wf_r2 a -> valid_r2 b ->
+  (r2_Rect_Contains a b = true <->
+   forall px py, nonnan px -> nonnan py -> mem_r2 b px py -> mem_r2 a px py).
+Proof. exact r2_contains_spec. Qed.
+Print Assumptions r2_contains_iff_subset.
+
+Theorem r2_intersects_iff_common_point : forall a b, wf_r2 a -> wf_r2 b ->
+  (r2_Rect_Intersects a b = true <->
+   exists px py, nonnan px /\ nonnan py /\ mem_r2 a px py /\ mem_r2 b px py).
+Proof. exact r2_intersects_spec. Qed.
+Print Assumptions r2_intersects_iff_common_point.
+
+Theorem r2_addpoint_keeps_everything : forall r p qx qy, wf_r2 r ->
+  nonnan (r2_Point_X p) -> nonnan (r2_Point_Y p) -> nonnan qx -> nonnan qy ->
+  mem_r2 r qx qy \/ (rank qx = rank (r2_Point_X p) /\ rank qy = rank (r2_Point_Y p)) ->
+  mem_r2 (r2_Rect_AddPoint r p) qx qy.
+Proof. exact r2_addpoint_sound. Qed.
+Print Assumptions r2_addpoint_keeps_everything.
+
+Theorem r2_clamp_lands_inside : forall r p, wf_r2 r -> valid_r2 r -> r2_Rect_IsEmpty r = false ->
+  nonnan (r2_Point_X p) -> nonnan (r2_Point_Y p) ->
+  let q := r2_Rect_ClampPoint r p in
+  nonnan (r2_Point_X q) /\ nonnan (r2_Point_Y q) /\ mem_r2 r (r2_Point_X q) (r2_Point_Y q).
+Proof. exact r2_clamp_inside. Qed.
+Print Assumptions r2_clamp_lands_inside.
+
+Theorem r2_empty_iff_no_member : forall r, valid_r2 r ->
+  (r2_Rect_IsEmpty r = true <-> forall px py, nonnan px -> nonnan py -> ~ mem_r2 r px py).
+Proof. exact r2_isempty_spec. Qed.
+Print Assumptions r2_empty_iff_no_member.
+
+Theorem r2_results_valid : forall a b p, valid_r2 a -> valid_r2 b ->
+  nonnan (r2_Point_X p) -> nonnan (r2_Point_Y p) ->
+  valid_r2 (r2_Rect_Union a b) /\ valid_r2 (r2_Rect_AddRect a b) /\
+  valid_r2 (r2_Rect_Intersection a b) /\ valid_r2 (r2_Rect_AddPoint a p) /\ valid_r2 r2_EmptyRect.
+Proof.
+  intros a b p Ha Hb Nx Ny.
+  exact (conj (r2_union_valid a b Ha Hb) (conj (r2_union_valid a b Ha Hb)
+        (conj (r2_intersection_valid a b (proj1 Ha) (proj1 Hb))
+        (conj (r2_addpoint_valid a p (proj1 Ha) Nx Ny) r2_empty_valid)))).
+Qed.
+Print Assumptions r2_results_valid.
+
+(** s2.Rect ----------------------------------------------------------------
+    points are (lat, x): lat a float with |lat| <= pi/2 ([vlat]), x a real point of the longitude
+    circle; [valid_s2rect] is equal to the code's IsValid. *)
+Theorem s2rect_isvalid_is_validity : forall r, s2_Rect_IsValid r = true <-> valid_s2rect r.
+Proof. exact s2rect_valid_iff. Qed.
+Print Assumptions s2rect_isvalid_is_validity.
+
+Theorem s2rect_contains_latlng_is_membership : forall r ll, valid_s2rect r ->
+  (s2_Rect_ContainsLatLng r ll = true <->
+   valid_ll ll /\ mem_s2rect r (s2_LatLng_Lat ll) (rank (s2_LatLng_Lng ll))).
+Proof. exact s2rect_contains_latlng. Qed.
+Print Assumptions s2rect_contains_latlng_is_membership.
+
+Theorem s2rect_union_contains_both : forall a b lat x, valid_s2rect a -> valid_s2rect b ->
+  nonnan lat -> inrange x ->
+  mem_s2rect a lat x \/ mem_s2rect b lat x -> mem_s2rect (s2_Rect_Union a b) lat x.
+Proof. exact s2rect_union_sound. Qed.
+Print Assumptions s2rect_union_contains_both.
+
+Theorem s2rect_intersection_contains_common : forall a b lat x, valid_s2rect a -> valid_s2rect b ->
+  nonnan lat -> inrange x ->
+  mem_s2rect a lat x -> mem_s2rect b lat x -> mem_s2rect (s2_Rect_Intersection a b) lat x.
+Proof. exact s2rect_intersection_complete. Qed.
+Print Assumptions s2rect_intersection_contains_common.
+
+Theorem s2rect_intersection_nothing_outside_both : forall a b lat x, valid_s2rect a -> valid_s2rect b ->
+  nonnan lat -> inrange x ->
+  mem_s2rect (s2_Rect_Intersection a b) lat x ->
+  (mem_s2rect a lat x \/ mem_s2rect b lat x) /\ (mem1 (s2_Rect_Lat a) lat /\ mem1 (s2_Rect_Lat b) lat).
+Proof.
+  intros a b lat x Ha Hb N Hx H.
+  exact (conj (s2rect_intersection_within a b lat x Ha Hb N Hx H)
+              (s2rect_intersection_lat_exact a b lat x Ha Hb N Hx H)).
+Qed.
+Print Assumptions s2rect_intersection_nothing_outside_both.
+
+Theorem s2rect_contains_iff_subset : forall a b, valid_s2rect a -> valid_s2rect b ->
+  (s2_Rect_Contains a b = true <->
+   forall lat x, nonnan lat -> inrange x -> mem_s2rect b lat x -> mem_s2rect a lat x).
+Proof. exact s2rect_contains_spec. Qed.
+Print Assumptions s2rect_contains_iff_subset.
+
+Theorem s2rect_intersects_iff_common_point : forall a b, valid_s2rect a -> valid_s2rect b ->
+  (s2_Rect_Intersects a b = true <->
+   exists lat x, nonnan lat /\ inrange x /\ mem_s2rect a lat x /\ mem_s2rect b lat x).
+Proof. exact s2rect_intersects_spec. Qed.
+Print Assumptions s2rect_intersects_iff_common_point.
+
+Theorem s2rect_addpoint_keeps_everything : forall r ll lat x, valid_s2rect r -> valid_ll ll ->
+  nonnan lat -> inrange x ->
+  mem_s2rect r lat x \/ (rank lat = rank (s2_LatLng_Lat ll) /\ normR x = normR (rank (s2_LatLng_Lng ll))) ->
+  mem_s2rect (s2_Rect_AddPoint r ll) lat x.
+Proof. exact s2rect_addpoint_sound. Qed.
+Print Assumptions s2rect_addpoint_keeps_everything.
+
+Theorem s2rect_polar_closure_keeps_everything : forall r lat x, valid_s2rect r -> inrange x ->
+  mem_s2rect r lat x -> mem_s2rect (s2_Rect_PolarClosure r) lat x.
+Proof. exact s2rect_polar_closure_sound. Qed.
+Print Assumptions s2rect_polar_closure_keeps_everything.
+
+Theorem s2rect_empty_iff_no_member : forall r, valid_s2rect r ->
+  (s2_Rect_IsEmpty r = true <-> forall lat x, vlat lat -> inrange x -> ~ mem_s2rect r lat x).
+Proof. exact s2rect_isempty_spec. Qed.
+Print Assumptions s2rect_empty_iff_no_member.
+
+Theorem s2rect_full_contains_everything : forall lat x, vlat lat -> inrange x -> mem_s2rect s2_FullRect lat x.
+Proof. exact s2rect_full_every_member. Qed.
+Print Assumptions s2rect_full_contains_everything.
+
+Theorem s2rect_results_valid : forall a b ll, valid_s2rect a -> valid_s2rect b ->
+  valid_s2rect (s2_Rect_Union a b) /\ valid_s2rect (s2_Rect_Intersection a b) /\
+  valid_s2rect (s2_Rect_AddPoint a ll) /\ valid_s2rect (s2_Rect_PolarClosure a) /\
+  valid_s2rect s2_EmptyRect /\ valid_s2rect s2_FullRect.
+Proof.
+  intros a b ll Ha Hb.
+  exact (conj (s2rect_union_valid a b Ha Hb) (conj (s2rect_intersection_valid a b Ha Hb)
+        (conj (s2rect_addpoint_valid a ll Ha) (conj (s2rect_polar_closure_valid a Ha)
+        (conj s2rect_empty_valid s2rect_full_valid))))).
+Qed.
+Print Assumptions s2rect_results_valid.
+
+(** Expansion (r1.Interval, r2.Rect) ---------------------------------------
+    a non-negative margin keeps every point; the only guard is that the computed endpoints
+    are not NaN (inf - inf), which [wf1 (Expanded ...)] says. *)
+Theorem r1_expanded_keeps_everything : forall i m p, wf1 i -> nonnan m -> 0 <= rank m -> nonnan p ->
+  wf1 (r1_Interval_Expanded i m) -> mem1 i p -> mem1 (r1_Interval_Expanded i m) p.
+Proof. exact r1_expanded_sound. Qed.
+Print Assumptions r1_expanded_keeps_everything.
+
+Theorem r2_expanded_keeps_everything : forall r m px py, wf_r2 r ->
+  nonnan (r2_Point_X m) -> nonnan (r2_Point_Y m) -> 0 <= rank (r2_Point_X m) -> 0 <= rank (r2_Point_Y m) ->
+  nonnan px -> nonnan py ->
+  wf1 (r1_Interval_Expanded (r2_Rect_X r) (r2_Point_X m)) ->
+  wf1 (r1_Interval_Expanded (r2_Rect_Y r) (r2_Point_Y m)) ->
+  mem_r2 r px py -> mem_r2 (r2_Rect_Expanded r m) px py.
+Proof. exact r2_expanded_sound. Qed.
+Print Assumptions r2_expanded_keeps_everything.
+
+(** s2.Cap -----------------------------------------------------------------
+    closed theorems about the code's point test (rounded squared chord <= radius) ... *)
+Theorem cap_addpoint_contains_the_point : forall c p, nonnan (s2_Cap_radius c) ->
+  (s2_Cap_IsEmpty c = true -> fin_pt p) ->
+  (s2_Cap_IsEmpty c = false -> dist_ok (s2_Cap_center c) p) ->
+  s2_Cap_ContainsPoint (s2_Cap_AddPoint c p) p = true.
+Proof. exact cap_addpoint_contains_point. Qed.
+Print Assumptions cap_addpoint_contains_the_point.
+
+Theorem cap_addpoint_keeps_every_point : forall c p q, nonnan (s2_Cap_radius c) ->
+  (s2_Cap_IsEmpty c = false -> dist_ok (s2_Cap_center c) p) ->
+  s2_Cap_ContainsPoint c q = true -> s2_Cap_ContainsPoint (s2_Cap_AddPoint c p) q = true.
+Proof. exact cap_addpoint_keeps_points. Qed.
+Print Assumptions cap_addpoint_keeps_every_point.
+
+Theorem cap_addcap_keeps_receiver_points : forall c o q, nonnan (s2_Cap_radius c) ->
+  s2_Cap_ContainsPoint c q = true -> s2_Cap_ContainsPoint (s2_Cap_AddCap c o) q = true.
+Proof. exact cap_addcap_keeps_first. Qed.
+Print Assumptions cap_addcap_keeps_receiver_points.
+
+Theorem cap_empty_and_full : forall c p,
+  (s2_Cap_IsEmpty c = true -> s2_Cap_ContainsPoint c p = false) /\
+  (s2_Cap_IsFull c = true -> nonnan (s2_Cap_radius c) -> dist_ok (s2_Cap_center c) p ->
+   s2_Cap_ContainsPoint c p = true).
+Proof. intros c p. exact (conj (cap_empty_contains_none c p) (cap_full_contains_all c p)). Qed.
+Print Assumptions cap_empty_and_full.
+
+Theorem cap_complement_of_empty_and_full : forall c,
+  (s2_Cap_IsFull c = true -> s2_Cap_Complement c = s2_EmptyCap) /\
+  (s2_Cap_IsEmpty c = true -> s2_Cap_Complement c = s2_FullCap).
+Proof. intros c. exact (conj (cap_complement_full c) (cap_complement_empty c)). Qed.
+Print Assumptions cap_complement_of_empty_and_full.
+
+Theorem cap_complement_of_special_covers : forall c p, nonnan (s2_Cap_radius c) ->
+  s2_Cap_IsEmpty c = true \/ s2_Cap_IsFull c = true ->
+  dist_ok (s2_Cap_center c) p -> dist_ok s2_centerPoint p ->
+  s2_Cap_ContainsPoint c p = true \/ s2_Cap_ContainsPoint (s2_Cap_Complement c) p = true.
+Proof. exact cap_complement_special_covers. Qed.
+Print Assumptions cap_complement_of_special_covers.
+
+Theorem cap_contains_with_special_operands : forall c o p,
+  s2_Cap_IsFull c = true \/ s2_Cap_IsEmpty o = true ->
+  s2_Cap_Contains c o = true /\
+  (nonnan (s2_Cap_radius c) -> dist_ok (s2_Cap_center c) p ->
+   s2_Cap_ContainsPoint o p = true -> s2_Cap_ContainsPoint c p = true).
+Proof.
+  intros c o p Hs.
+  exact (conj (cap_contains_full_or_empty c o Hs) (fun N D => cap_contains_special_sound c o p N Hs D)).
+Qed.
+Print Assumptions cap_contains_with_special_operands.
+
+Theorem cap_intersects_with_empty_operand : forall c o p,
+  s2_Cap_IsEmpty c = true \/ s2_Cap_IsEmpty o = true ->
+  s2_Cap_Intersects c o = false /\
+  ~ (s2_Cap_ContainsPoint c p = true /\ s2_Cap_ContainsPoint o p = true).
+Proof.
+  intros c o p Hs. exact (conj (cap_intersects_empty c o Hs) (cap_intersects_empty_sound c o p Hs)).
+Qed.
+Print Assumptions cap_intersects_with_empty_operand.
+
+(** ... and, under the named hypothesis H_CAPARITH eps (rounded chord-angle arithmetic obeys the
+    triangle inequality up to eps; a statement about float expressions only), soundness of
+    Contains / Intersects / AddCap / Expanded / Complement up to eps in squared chord length. *)
+Theorem cap_contains_sound_H : forall eps, H_CAPARITH eps -> forall c o p,
+  s2_Cap_IsValid c = true -> s2_Cap_IsValid o = true -> unitp p -> dist_ok (s2_Cap_center c) p ->
+  s2_Cap_Contains c o = true -> s2_Cap_ContainsPoint o p = true ->
+  rank (s2_ChordAngleBetweenPoints (s2_Cap_center c) p) <= rank (s2_Cap_radius c) + eps.
+Proof. exact cap_contains_sound_under_H. Qed.
+Print Assumptions cap_contains_sound_H.
+
+Theorem cap_intersects_sound_H : forall eps, H_CAPARITH eps -> forall c o p,
+  s2_Cap_IsValid c = true -> s2_Cap_IsValid o = true -> unitp p ->
+  s2_Cap_ContainsPoint c p = true -> s2_Cap_ContainsPoint o p = true ->
+  s2_Cap_Intersects c o = true \/
+  rank (s2_ChordAngleBetweenPoints (s2_Cap_center c) (s2_Cap_center o))
+    <= rank (s1_ChordAngle_Add (s2_Cap_radius c) (s2_Cap_radius o)) + eps.
+Proof. exact cap_intersects_sound_under_H. Qed.
+Print Assumptions cap_intersects_sound_H.
+
+Theorem cap_addcap_sound_H : forall eps, H_CAPARITH eps -> forall c o p,
+  s2_Cap_IsValid c = true -> s2_Cap_IsValid o = true -> unitp p ->
+  s2_Cap_IsEmpty c = false -> s2_Cap_ContainsPoint o p = true ->
+  let u := s2_Cap_AddCap c o in
+  s2_Cap_center u = s2_Cap_center c /\
+  rank (s2_ChordAngleBetweenPoints (s2_Cap_center c) p) <= rank (s2_Cap_radius u) + eps.
+Proof. exact cap_addcap_sound_under_H. Qed.
+Print Assumptions cap_addcap_sound_H.
+
+Theorem cap_expanded_sound_H : forall eps, H_CAPARITH eps -> forall c d p,
+  s2_Cap_IsValid c = true -> radius_ok (s1_ChordAngleFromAngle d) ->
+  s2_Cap_ContainsPoint c p = true ->
+  let e := s2_Cap_Expanded c d in
+  s2_Cap_center e = s2_Cap_center c /\
+  rank (s2_ChordAngleBetweenPoints (s2_Cap_center c) p) <= rank (s2_Cap_radius e) + eps.
+Proof. exact cap_expanded_sound_under_H. Qed.
+Print Assumptions cap_expanded_sound_H.
+
+Theorem cap_complement_covers_H : forall eps, H_CAPARITH eps -> forall c p,
+  s2_Cap_IsValid c = true -> s2_Cap_IsEmpty c = false -> s2_Cap_IsFull c = false -> unitp p ->
+  s2_Cap_ContainsPoint c p = true \/
+  (let k := s2_Cap_Complement c in
+   rank (s2_ChordAngleBetweenPoints (s2_Cap_center k) p) <= rank (s2_Cap_radius k) + eps).
+Proof. exact cap_complement_covers_under_H. Qed.
+Print Assumptions cap_complement_covers_H.
+
+(** s1.Interval.Expanded / s2.Rect.expanded --------------------------------
+    FINDING: "expansion by a non-negative margin keeps every original point" is false of
+    s1.Interval.Expanded as it is: when Length + 2*margin + 2*dblEpsilon evaluates to one ulp
+    below 2*pi the result is a single point. *)
+Theorem s1_expanded_keeps_everything_refuted : exists i m p,
+  s1_Interval_IsValid i = true /\ PrimFloat.leb 0%float m = true /\
+  s1_Interval_Contains i p = true /\
+  s1_Interval_IsValid (s1_Interval_Expanded i m) = true /\
+  s1_Interval_Contains (s1_Interval_Expanded i m) p = false.
+Proof. exact s1_expanded_refuted. Qed.
+Print Assumptions s1_expanded_keeps_everything_refuted.
+
+(** outside that one-ulp zone ([exp_safe]: empty, or the guard fires, or its value is at least
+    two ulps below 2*pi) and under the named hypothesis H_S1EXPAND (there the two wrapped
+    endpoints enclose the original arc: float expressions and reals only) the property holds;
+    the theorems add the code's branching and the normalisations of -pi. *)
+Theorem s1_expanded_keeps_everything_H : H_S1EXPAND -> forall i m x,
+  valid_s1 i -> nonnan m -> 0 <= rank m -> exp_safe i m -> inrange x ->
+  mem_s1 i x -> mem_s1 (s1_Interval_Expanded i m) x.
+Proof. exact s1_expanded_sound_under_H. Qed.
+Print Assumptions s1_expanded_keeps_everything_H.
+
+Theorem s1_expanded_valid_H : H_S1EXPAND -> forall i m,
+  valid_s1 i -> nonnan m -> 0 <= rank m -> exp_safe i m -> valid_s1 (s1_Interval_Expanded i m).
+Proof. exact s1_expanded_valid_under_H. Qed.
+Print Assumptions s1_expanded_valid_H.
+
+Theorem s2rect_expanded_keeps_everything_H : H_S1EXPAND -> forall r mg lat x,
+  valid_s2rect r -> vlat lat -> inrange x ->
+  nonnan (s2_LatLng_Lat mg) -> 0 <= rank (s2_LatLng_Lat mg) ->
+  nonnan (s2_LatLng_Lng mg) -> 0 <= rank (s2_LatLng_Lng mg) ->
+  exp_safe (s2_Rect_Lng r) (s2_LatLng_Lng mg) ->
+  wf1 (r1_Interval_Expanded (s2_Rect_Lat r) (s2_LatLng_Lat mg)) ->
+  mem_s2rect r lat x -> mem_s2rect (s2_Rect_expanded r mg) lat x.
+Proof. exact s2rect_expanded_sound_under_H. Qed.
+Print Assumptions s2rect_expanded_keeps_everything_H.
+
+(** FINDING: "all results are valid values" is false of Cap.Union as it is (NaN centre for two
+    valid caps with nearly antipodal centres and a subnormal coordinate). *)
+Theorem cap_union_result_valid_refuted : exists a b,
+  s2_Cap_IsValid a = true /\ s2_Cap_IsValid b = true /\ s2_Cap_IsValid (s2_Cap_Union a b) = false.
+Proof. exact cap_union_valid_refuted. Qed.
+Print Assumptions cap_union_result_valid_refuted.
